@@ -38,6 +38,8 @@ fn validate_method(ctx: &Context, input: &DeriveInput) -> TokenStream {
                 });
                 let size_check = if !ctx.info.sized {
                     quote! {
+                        // Validate exactly the bytes the reference returned by `ptr_from_bytes` covers.
+                        let data = unsafe { data.get_unchecked(..::flatty::utils::floor_mul(data.len(), <Self as FlatBase>::ALIGN)) };
                         if data.len() < Self::DATA_MIN_SIZES[*tag as usize] {
                             return Err(Error {
                                 kind: ErrorKind::InsufficientSize,
